@@ -485,7 +485,10 @@ def _entry_pool(rng, n):
         if rng.random() < 0.35:
             e["latent_time"] = False
         if rng.random() < 0.3:
-            e["max_stack_depth"] = rng.choice([0, 1, 3])
+            # the un-truncated search only for short texts: beyond that it is legitimately
+            # huge ('10/31/2018 10/31/2018') and nothing here would bound it
+            e["max_stack_depth"] = rng.choice([0, 1, 3] if len(t.split()) <= 3 and len(t) <= 16
+                                              else [1, 3])
         if rng.random() < 0.15:
             e["relative_match_len"] = rng.choice([0.5, 0.8])
         r = rng.random()
